@@ -3,8 +3,14 @@ EXTENDS Reader, Json
 \* every maximal operation history of the bound, with the values the specification says are returned
 \* model-checking economy only: histories with two data probes in a row, or with more than one failing
 \* rewind / data probe on a non-recording reader, add nothing
-Useful == /\ (~opened => Len(log) <= 2)      \* at most two reads before open()
+Useful == /\ (~opened /\ ~HasClose => Len(log) <= 2)      \* at most two reads before open()
+          /\ Cardinality({i \in 1..Len(log) : log[i].op = "close"}) <= 1
+          \* after the close: at most one read on the closed reader, then the rewind (or the end of the history)
+          /\ \A i \in 1..Len(log) : log[i].op = "close" => /\ (i + 1 <= Len(log) => log[i + 1].op \in {"read", "rewind"})
+                                                            /\ \A j \in 1..(i - 1) : log[j].op \notin {"rewind", "data"}        \* before the first rewind, after at least one read
+                                                            /\ \E jj \in 1..(i - 1) : log[jj].op = "read" /\ log[jj].k = "blk"
+                                                            /\ (i + 2 <= Len(log) => log[i + 1].op = "rewind" \/ log[i + 2].op = "rewind")
           /\ \A i \in 1..(Len(log) - 1) : ~(log[i].op = "data" /\ log[i+1].op = "data")
           /\ (~c.rec => Cardinality({i \in 1..Len(log) : log[i].op = "rewind"}) <= 1 /\ Cardinality({i \in 1..Len(log) : log[i].op = "data"}) <= 1)
-Export == (Len(log) = MaxOps) => PrintT(ToJson([c |-> c, log |-> log, closed |-> ~opened]))
+Export == (Len(log) = MaxOps) => PrintT(ToJson([c |-> c, log |-> log, closed |-> ~StartedOpen]))
 =========================================================================
